@@ -48,6 +48,8 @@ Next == /\ phase = 0 /\ phase' = 1 /\ base' = base
 \* the base in force where the reference stands
 InnerBase == IF inner = <<>> THEN Target(base, <<>>) ELSE Target(base, inner)
 Tgt == Target(InnerBase, ref)
+\* (RFC 3986 6.2.3: an empty path and "/" are equivalent for http, so identifiers differing only in that are not told apart here)
+SlashPath(u) == LET t == Split(u) IN Recompose([t EXCEPT !.path = IF t.path = <<>> THEN <<Slash>> ELSE t.path])
 \* near misses: the trailing slash toggled, the query toggled, one path segment more / fewer
 Decoys ==
   LET t == Split(Tgt)
@@ -57,10 +59,10 @@ Decoys ==
              \cup (IF Len(p) > 1 /\ p[Len(p)] # Slash THEN { [t EXCEPT !.path = p \o <<Slash>>] } ELSE {})
              \cup { [t EXCEPT !.path = p \o (IF p # <<>> /\ p[Len(p)] = Slash THEN <<G>> ELSE <<Slash,G>>)] }
              \cup (IF Len(DropLast(p)) > 0 THEN { [t EXCEPT !.path = DropLast(p)] } ELSE {})
-  IN { Recompose(d) : d \in alt } \ { Tgt, Target(base, <<>>), InnerBase }
+  IN { x \in { Recompose(d) : d \in alt } : SlashPath(x) \notin { SlashPath(Tgt), SlashPath(Target(base, <<>>)), SlashPath(InnerBase) } }
 
 \* a reference to an enclosing schema would recurse without consuming the instance (undefined); not generated
-Applicable == Tgt # Target(base, <<>>) /\ Tgt # InnerBase
+Applicable == SlashPath(Tgt) # SlashPath(Target(base, <<>>)) /\ SlashPath(Tgt) # SlashPath(InnerBase)
 
 SetToSeq(S) == CHOOSE f \in [1..Cardinality(S) -> S] : \A i, j \in 1..Cardinality(S) : i # j => f[i] # f[j]
 Case == [base |-> base, inner |-> inner, ref |-> ref, target |-> Tgt, decoys |-> SetToSeq(Decoys),
